@@ -285,6 +285,9 @@ def r03_7(prog, rep):
             marker = any(T.contains(tm, lambda x: T.refname(x) in ("typing.NotRequired", "typing_extensions.NotRequired")) for pth in gps for tm in pth.all_terms())
             return hints and marker
         ok_eval = all(corrected(gps) for _q, gps in sites)
+        # with include_extras the hint of `id: Annotated[Required[int], "pk"]` is the Annotated form: the marker sits beneath it
+        beneath = all(any(T.contains(tm, lambda x: T.refname(x) in ("typing.Annotated", "typing_extensions.Annotated")) for pth in gps for tm in pth.all_terms()) for _q, gps in sites if corrected(gps))
+        rep.check(beneath, "R03.7", sorted({q for q, _ in sites})[0], f.loc, "the Required / NotRequired marker is looked for beneath Annotated[...]", "the marker is read off the outermost origin of the evaluated hint: for `id: Annotated[Required[int], 'pk']` in a string annotation (PEP 563) that origin is Annotated, the marker is missed and the stale runtime __required_keys__ is kept -- unmarshal(Patch, {'note': 'x'}) returns a Patch without its required `id`", detail="typeddict-required-annotated")
         where = sorted({q for q, _ in sites})[0]
         rep.check(ok_eval, "R03.7", where, f.loc, "the required keys are corrected from the evaluated hints (NotRequired / Required written in string annotations)", "the required keys are taken from the runtime's __required_keys__ as they are: under `from __future__ import annotations` (or for a quoted member) the runtime cannot see NotRequired[...], lists the key as required, and a valid value that omits it is rejected -- unmarshal(Movie, {'title': 'Alien'}) raises 'missing required keys: [year]' for `year: NotRequired[int]`", detail="typeddict-required-evaluated")
     # a parameterised generic TypedDict (`Page[int]`) is an alias object: it forwards no dunder attribute of the class.  Whoever
